@@ -1,4 +1,6 @@
 """C09: Annotation.support, label durations, chart, argmax, co-occurrence matrix."""
+from fractions import Fraction
+
 from harness import enc, gen
 from harness.annutil import enc_names, enc_triples, enc_uri, mk_ann, nm, rand_records, triples, LABELS
 from harness.props.c07 import enc_oann, _oann
@@ -92,7 +94,8 @@ def run(case):
                 "argmax": None if am is None else [nm(am)], "argmax_sup": None if ams is None else [nm(ams)],
                 "mul": [[tb.u(x) for x in row] for row in m.tolist()],
                 "mul_rev": [[tb.u(x) for x in row] for row in mr.tolist()],
-                "labels_a": [nm(l) for l in labels], "labels_b": [nm(l) for l in b.labels()]}
+                "labels_a": [nm(l) for l in labels], "labels_b": [nm(l) for l in b.labels()],
+                "pct": None if not total > 0 else [[nm(l), list(Fraction(float(p)).as_integer_ratio())] for l, p in pc]}
     finally:
         tb.leave()
 
@@ -106,7 +109,8 @@ def encode(case, o):
     on = lambda x: "None" if x is None else f"(Some {e.name(x[0])})"
     return (f"K {e.z(eps)} {enc_triples(case['a'])} {enc_triples(case['b'])} {e.z(case['collar'])} {sup} "
             f"{enc_oann(o['support'])} {nz(o['durs'])} {nz(o['chart'])} {on(o['argmax'])} {on(o['argmax_sup'])} "
-            f"{mat(o['mul'])} {mat(o['mul_rev'])} {enc_names(o['labels_a'])} {enc_names(o['labels_b'])}")
+            f"{mat(o['mul'])} {mat(o['mul_rev'])} {enc_names(o['labels_a'])} {enc_names(o['labels_b'])} "
+            + ("None" if o["pct"] is None else "(Some " + e.lst([e.pair(e.name(n), e.pair(e.z(r[0]), e.z(r[1]))) for n, r in o["pct"]]) + ")"))
 
 
 def nontrivial(case, o):
